@@ -90,14 +90,14 @@ def run_free(chk, prop, tier, replay_set=None):
             mb, mx = 1, 2          # a `;` join together with a comment needs two extras
         elif tier == "quick":
             mb, mx = 2, 1
-        with open(os.path.join(common.SPECS, "_FreeForm_%s_%s.cfg" % (name, tier)), "w") as f:
+        with open(os.path.join(common.SPECS, "_FreeForm_%s_%s.cfg" % (name, os.path.basename(chk.work))), "w") as f:
             f.write("SPECIFICATION Spec\nCONSTANTS\n  Stmts <- %s\n  MaxBreaks = %d\n  MaxExtras = %d\nINVARIANT RoundTrip\nINVARIANT CommentsKept\nCONSTRAINT Dump\n" % (name, mb, mx))
-        jobs.append((name, "_FreeForm_%s_%s.cfg" % (name, tier)))
+        jobs.append((name, "_FreeForm_%s_%s.cfg" % (name, os.path.basename(chk.work))))
     results = pmap(_tlc_free, jobs, chunksize=1, procs=4)
     all_cases = []
     for (name, stmts, ctx), (gen, dist, beh, viol, err) in zip(sets, results):
         try:
-            os.remove(os.path.join(common.SPECS, "_FreeForm_%s_%s.cfg" % (name, tier)))
+            os.remove(os.path.join(common.SPECS, "_FreeForm_%s_%s.cfg" % (name, os.path.basename(chk.work))))
         except OSError:
             pass
         if err:
@@ -290,25 +290,41 @@ def check_fixed_items(chk, cases):
 def run_fixed(chk, tier, replay_set=None, amp_end=False):
     layouts.gen_tla(os.path.join(common.SPECS, "SourceForm_gen.tla"))
     sets = [s for s in layouts.SETS if replay_set is None or s[0] == replay_set]
-    mb, mx, cc = (2, 1, "CC2") if tier == "quick" else (2, 1, "CC3")       # (thorough with 14 continuation characters and two extras ran out of memory)
+    cc = "CC2" if tier == "quick" else "CC3"
+    tag = os.path.basename(chk.work)            # C05 and C12 may run at the same time: each writes configurations of its own
     jobs = []
-    for name, stmts, ctx in sets:
+    owner = []
+    for si, (name, stmts, ctx) in enumerate(sets):
         if tier == "quick":
             # a trailing comment on a continued line and one at the end need two extras: one break with two extras, or two breaks with one
-            mb, mx = ((1, 2) if name[-1] in "13579" else (2, 1)) if len(stmts) == 1 else (2, 1)
+            bounds = [((1, 2) if name[-1] in "13579" else (2, 1)) if len(stmts) == 1 else (2, 1)]
         else:
-            mb, mx = (2, 2) if len(stmts) == 1 else (2, 1)
-        cfg = "_FixedForm_%s_%s.cfg" % (name, tier)
-        with open(os.path.join(common.SPECS, cfg), "w") as f:
-            f.write("SPECIFICATION Spec\nCONSTANTS\n  Stmts <- %s\n  MaxBreaks = %d\n  MaxExtras = %d\n  ContChars <- %s\n  AmpEnd = %s\nINVARIANT RoundTrip\nCONSTRAINT Dump\n" % (name, mb, mx, cc, "TRUE" if amp_end else "FALSE"))
-        jobs.append((name, cfg, "MCFixedForm.tla"))
-    results = pmap(_tlc_form, jobs, chunksize=1, procs=4)
-    cases = []
-    for (name, stmts, ctx), (gen, dist, beh, viol, err) in zip(sets, results):
+            # (two breaks together with two extras - and 14 continuation characters - ran out of memory and took hours: the thorough
+            # tier runs both quick shapes for every single-statement set, with three continuation characters)
+            bounds = [(2, 1), (1, 2)] if len(stmts) == 1 else [(2, 1)]
+        for mb, mx in bounds:
+            cfg = "_FixedForm_%s_%s_%d%d.cfg" % (name, tag, mb, mx)
+            with open(os.path.join(common.SPECS, cfg), "w") as f:
+                f.write("SPECIFICATION Spec\nCONSTANTS\n  Stmts <- %s\n  MaxBreaks = %d\n  MaxExtras = %d\n  ContChars <- %s\n  AmpEnd = %s\nINVARIANT RoundTrip\nCONSTRAINT Dump\n" % (name, mb, mx, cc, "TRUE" if amp_end else "FALSE"))
+            jobs.append((name + "_%s_%d%d" % (tag, mb, mx), cfg, "MCFixedForm.tla"))
+            owner.append(si)
+    raw = pmap(_tlc_form, jobs, chunksize=1, procs=4)
+    for _, cfg, _ in jobs:
         try:
-            os.remove(os.path.join(common.SPECS, "_FixedForm_%s_%s.cfg" % (name, tier)))
+            os.remove(os.path.join(common.SPECS, cfg))
         except OSError:
             pass
+    results = []
+    for si in range(len(sets)):
+        gen = dist = 0
+        beh, viol, err = [], None, None
+        for o, (g, d, bh, v, e) in zip(owner, raw):
+            if o == si:
+                gen, dist, viol, err = gen + g, dist + d, viol or v, err or e
+                beh.extend(bh)
+        results.append((gen, dist, beh, viol, err))
+    cases = []
+    for (name, stmts, ctx), (gen, dist, beh, viol, err) in zip(sets, results):
         if err:
             raise MachineryError("TLC failed on FixedForm %s: %s" % (name, err))
         chk.cov["states"] += dist
